@@ -40,6 +40,10 @@ IsOptType(T) == CASE T.k = "annot" -> IsOptType(T.t)
 
 SerFields(K) == SelectSeq(K.fields, LAMBDA f : ~f.skips /\ f.kind # "wo")
 
+\* issubclass along the declared bases: an instance of a subclass is a value of the base class too
+RECURSIVE IsSubclass(_, _, _)
+IsSubclass(ctx, c, b) == c = b \/ \E i \in DOMAIN ctx.C[c].bases : IsSubclass(ctx, ctx.C[c].bases[i], b)
+
 \* runtime class test used to select the alternative of a union (isinstance)
 RECURSIVE InstOf(_, _, _)
 InstOf(ctx, T, v) ==
@@ -58,7 +62,7 @@ InstOf(ctx, T, v) ==
     [] T.k = "map"     -> v.k = "dict"
     [] T.k = "lit"     -> \E i \in DOMAIN T.vals : LitImg(T, i).k = v.k
     [] T.k = "enum"    -> v.k = "enum" /\ v.cls = T.cls
-    [] T.k = "obj"     -> IF ctx.C[T.cls].kind = "typeddict" THEN v.k = "dict" ELSE v.k = "inst" /\ v.cls = T.cls
+    [] T.k = "obj"     -> IF ctx.C[T.cls].kind = "typeddict" THEN v.k = "dict" ELSE v.k = "inst" /\ IsSubclass(ctx, v.cls, T.cls)
     [] T.k = "union"   -> \E i \in DOMAIN T.alts : InstOf(ctx, T.alts[i], v)
     [] T.k = "dunion"  -> \E i \in DOMAIN T.alts : InstOf(ctx, T.alts[i], v)
     [] OTHER -> FALSE
